@@ -70,6 +70,13 @@ func (vc *VC) exec(st *State, s ast.Stmt) flow {
 		return flow{normal: st}
 	case *ast.AssignStmt:
 		vc.execAssign(st, x)
+		if vc.pendingRecv > 0 && vc.contract != nil {
+			for _, cl := range vc.contract.Recvs[vc.pendingRecv] {
+				vc.assume(st, vc.specBool(st, nil, cl.Expr, nil, nil))
+				vc.noteAssumption(fmt.Sprintf("assume after receive #%d in %s: %s  [%s]", vc.pendingRecv, vc.fn.Key, cl.Src, cl.Reason))
+			}
+			vc.pendingRecv = 0
+		}
 		return flow{normal: st}
 	case *ast.IncDecStmt:
 		v := vc.eval(st, x.X)
